@@ -69,6 +69,10 @@ claim("C10", "other", "whole-program lower-case typestate on the keys of the fiv
       "Case-insensitive matching is decided as a typestate at all 13 access sites of equs/labels/defs/sets/special: every key must be provably lower-cased, followed through Item/Document payloads (every construction site) and parameters (every call site, virtual calls expanded). Unbound identifier and alias -> Err, bound identifier = looked-up value, alias = stored register, duplicate label rejected, .undef removes, .set/.def/.undef applied in pass 2's forward loop, labels bound in pass 1 before pass 2, .equ at parse time are path/order facts. Level 'other': lookup-order precedence, cross-kind collisions, .equ redefinition are not decided.",
       "Trusted: rustc MIR, analysis/norm.py. Cyclic .equ is C16.", engine="E0+E1+E4")
 
+claim("C11", "other", "def-use / backward-slice and dominance rules on the MIR of the include machinery (sharing vs. fresh construction, chain of custody of the include-path set, error exits, directory flows) + mode table extracted by abstract interpretation",
+      "Decides the structural clauses of 'include = paste': the nested parse context shares the includer's segments, macros, messages and symbol context (Rc clones of handle structs, never fresh objects) at both hops; directories added by .includepath inside an included file reach the includer's set at every hop (sharing or write-back after the nested parse); a file that cannot be opened is an error whose message is built from the looked-up path; .exit yields a mode that only ends the current line loop and .include leaves the mode alone; caller directories, the file's own directory and a (joined-when-relative) .includepath argument flow into the searched set and the path as written is tried first. Level 'other': which file wins among several, CWD behaviour, symlinks and I/O errors are runtime configuration, not decided.",
+      "Trusted: rustc MIR and callee resolution.", engine="E0+E1+E3")
+
 ENGINES = [
     {"name": "E0 fact driver", "path": "driver/", "serves_properties": sorted(P), "kind_free_text": "rustc_private driver (RUSTC_WORKSPACE_WRAPPER) dumping callee-resolved MIR, ADT/static/impl tables of /repo's two crates as JSON"},
     {"name": "E1 abstract interpreter", "path": "analysis/absint.py", "serves_properties": ["C01", "C02", "C03", "C04", "C05", "C06", "C08", "C12", "C13"], "kind_free_text": "path-sensitive abstract interpretation of MIR: named unknowns, value sets, bit provenance, linear forms; no solver, no execution of /repo"},
